@@ -108,7 +108,13 @@ def _check_piecewise(res, facts, ids, all_ids, souts, rows_all, scale, tau_rel, 
                 d = p - r
                 if not d.is_zero():
                     res.nontrivial = True
-                v, model = solver.decide(d, tau, with_defs=True, label='%s[%d]@%s' % (nm, k, s_))
+                solver._ensure_vars(d, True)
+                model = solver.guess(d, tau)
+                if model is not None:
+                    st.queries += 1; st.sat += 1
+                    v = 'sat'
+                else:
+                    v, model = solver.decide(d, tau, with_defs=True, label='%s[%d]@%s' % (nm, k, s_))
                 if v == 'sat':
                     xv = [core.model_array(model, i) for i in ids]
                     rep = replay_values(impl, ref, xv, names.index(nm), k, float(tau), rpw)
